@@ -374,6 +374,66 @@ pub fn run(args: &[String]) -> i32 {
             }
         }
     }
+    // 2c. a file-only setting is applied whatever an earlier run with another configuration left at the output location:
+    //     run with configuration X, then with Y, into the same file / folder; the result equals Y into an empty location
+    {
+        let configs = |lang: Lang| -> [String; 3] {
+            match lang {
+                Lang::Swift => [s("[swift]\ndefault_decorators = [\"Sendable\"]\ncodablevoid_constraints = [\"Equatable\"]\n"), s("[swift]\ndefault_decorators = [\"Hashable\"]\ncodablevoid_constraints = [\"Hashable\", \"Sendable\"]\ndefault_generic_constraints = [\"Sendable\"]\n"), s("")],
+                Lang::Kotlin => [s("[kotlin]\npackage = \"p.q\"\n[kotlin.type_mappings]\nDateTime = \"String\"\n"), s("[kotlin]\npackage = \"p.q\"\n[kotlin.type_mappings]\nDateTime = \"Instant\"\n"), s("[kotlin]\npackage = \"p.q\"\n")],
+                Lang::Scala => [s("[scala]\npackage = \"p.q\"\n[scala.type_mappings]\nDateTime = \"String\"\n"), s("[scala]\npackage = \"p.q\"\n[scala.type_mappings]\nDateTime = \"Instant\"\n"), s("[scala]\npackage = \"p.q\"\n")],
+                Lang::Go => [s("[go]\npackage = \"p\"\nuppercase_acronyms = [\"ID\"]\n"), s("[go]\npackage = \"p\"\nuppercase_acronyms = [\"URL\", \"ID\"]\n[go.type_mappings]\nDateTime = \"time.Time\"\n"), s("[go]\npackage = \"p\"\n")],
+                Lang::TypeScript => [s("[typescript.type_mappings]\nDateTime = \"string\"\n"), s("[typescript.type_mappings]\nDateTime = \"Date\"\n"), s("")],
+                Lang::Python => [s("[python.type_mappings]\nDateTime = \"str\"\n"), s("[python.type_mappings]\nDateTime = \"datetime\"\n"), s("")],
+            }
+        };
+        let mut jobs = Vec::new();
+        for &lang in &crate::pipeline::ALL_LANGS {
+            for folder in [false, true] {
+                for (x, y) in [(0usize, 1usize), (1, 0), (0, 2), (2, 1)] {
+                    jobs.push((lang, folder, x, y));
+                }
+            }
+        }
+        let results = cli::par_map(&jobs, report::threads(), |(lang, folder, x, y)| {
+            let cfgs = configs(*lang);
+            let sc = Scratch::new("c20r");
+            sc.write("ws/app/src/lib.rs", SRC.as_bytes());
+            let px = sc.write("cfg/x.toml", cfgs[*x].as_bytes());
+            let py = sc.write("cfg/y.toml", cfgs[*y].as_bytes());
+            let run = |cfg: &std::path::Path, loc: &str| {
+                let mut args = vec![s("--lang"), s(lang.name()), s("-c"), cfg.to_string_lossy().into_owned()];
+                if *folder {
+                    sc.mkdir(loc);
+                    args.extend([s("-d"), sc.path(loc).to_string_lossy().into_owned()]);
+                } else {
+                    sc.mkdir(loc);
+                    args.extend([s("-o"), sc.path(&format!("{loc}/types.{}", lang.ext())).to_string_lossy().into_owned()]);
+                }
+                args.push(sc.path("ws").to_string_lossy().into_owned());
+                let r = run_cli(&args, &sc.root, &[], cli::TIMEOUT);
+                (r.class(), r.stderr.chars().take(300).collect::<String>(), args)
+            };
+            let r1 = run(&px, "reused");
+            let r2 = run(&py, "reused");
+            let r3 = run(&py, "fresh");
+            (r1, r2, r3, cli::snapshot(&sc.path("reused")), cli::snapshot(&sc.path("fresh")))
+        });
+        for ((lang, folder, x, y), (r1, r2, r3, reused, fresh)) in jobs.iter().zip(results.iter()) {
+            table_runs += 3;
+            let names = ["first", "second", "none"];
+            let failed = [r1, r2, r3].iter().any(|r| r.0 != "ok");
+            if failed || reused != fresh {
+                let differing: Vec<String> = reused.keys().chain(fresh.keys()).filter(|k| reused.get(*k) != fresh.get(*k)).cloned().collect::<std::collections::BTreeSet<_>>().into_iter().collect();
+                rep.vios.add(Violation {
+                    sig: format!("C20|{}|file-only-setting-not-applied|output-location-used-before-with-another-configuration|{}|earlier={}|now={}|{}", lang.name(), if *folder { "folder" } else { "file" }, names[*x], names[*y], if failed { "run-failed".to_string() } else { format!("differs:{}", differing.iter().map(|d| d.rsplit('/').next().unwrap_or(d).to_string()).collect::<Vec<_>>().join("+")) }),
+                    detail: json!({"earlier_config": configs(*lang)[*x], "config": configs(*lang)[*y], "argv_earlier": r1.2, "argv": r2.2, "exits": [r1.0, r2.0, r3.0], "stderr": [&r1.1, &r2.1, &r3.1], "files_that_differ_from_a_run_into_an_empty_location": differing,
+                        "reused_location": reused.iter().map(|(k, v)| (k.clone(), String::from_utf8_lossy(v).into_owned())).collect::<std::collections::BTreeMap<_, _>>(),
+                        "empty_location": fresh.iter().map(|(k, v)| (k.clone(), String::from_utf8_lossy(v).into_owned())).collect::<std::collections::BTreeMap<_, _>>()}),
+                });
+            }
+        }
+    }
     // 3. discovery: ancestor search from cwd depth 0..3, nearest file wins, -c beats discovery
     let mut discovery_runs = 0u64;
     {
